@@ -14,6 +14,9 @@ import subprocess
 import sys
 
 VERIF = os.path.dirname(os.path.dirname(os.path.abspath(__file__)))
+RND = os.environ.get("SEED_ROUND", "")   # "" -> /tmp/seed-Cxx, /tmp/wt-Cxx ; "3" -> /tmp/seed3-Cxx, /tmp/wt3-Cxx
+SEEDP = "/tmp/seed%s-" % RND
+WTP = "/tmp/wt%s-" % RND
 
 
 def sh(cmd, cwd=None, env=None, timeout=3600):
@@ -25,17 +28,18 @@ def sh(cmd, cwd=None, env=None, timeout=3600):
 
 
 def demo_file(prop, k):
-    fs = glob.glob("/tmp/seed-%s/demo%s/*.rs" % (prop, k))
+    fs = glob.glob(SEEDP + "%s/demo%s/*.rs" % (prop, k))
+    fs.sort()
     return fs[0] if fs else None
 
 
 def confirm(prop, k, crate, rustflags=None, demo_dir=None):
-    wt = "/tmp/wt-%s" % prop
+    wt = WTP + prop
     env = {"CARGO_TARGET_DIR": wt + "/target", "CARGO_NET_OFFLINE": "true"}
     denv = dict(env)
     if rustflags:
         denv["RUSTFLAGS"] = rustflags
-    diff = "/tmp/seed-%s/mut%s.diff" % (prop, k)
+    diff = SEEDP + "%s/mut%s.diff" % (prop, k)
     demo = demo_file(prop, k)
     res = {}
     sh("git checkout -- . && git clean -fdq -e target", cwd=wt)
@@ -79,7 +83,7 @@ def confirm(prop, k, crate, rustflags=None, demo_dir=None):
 
 
 def evaluate(prop, k, tier, checks):
-    diff = "/tmp/seed-%s/mut%s.diff" % (prop, k)
+    diff = SEEDP + "%s/mut%s.diff" % (prop, k)
     rc, out = sh("git -C /repo status --short")
     if out.strip():
         return {"error": "/repo is not clean: " + out}
@@ -100,13 +104,13 @@ def evaluate(prop, k, tier, checks):
 def store(prop, k, name, extra):
     d = os.path.join(VERIF, "seeded", name)
     os.makedirs(d, exist_ok=True)
-    shutil.copy("/tmp/seed-%s/mut%s.diff" % (prop, k), os.path.join(d, "patch.diff"))
+    shutil.copy(SEEDP + "%s/mut%s.diff" % (prop, k), os.path.join(d, "patch.diff"))
     dd = os.path.join(d, "demo")
     shutil.rmtree(dd, ignore_errors=True)
-    if os.path.isdir("/tmp/seed-%s/demo%s" % (prop, k)):
-        shutil.copytree("/tmp/seed-%s/demo%s" % (prop, k), dd)
+    if os.path.isdir(SEEDP + "%s/demo%s" % (prop, k)):
+        shutil.copytree(SEEDP + "%s/demo%s" % (prop, k), dd)
     meta = {}
-    mp = "/tmp/seed-%s/meta%s.json" % (prop, k)
+    mp = SEEDP + "%s/meta%s.json" % (prop, k)
     if os.path.exists(mp):
         try:
             meta = json.load(open(mp))
@@ -127,6 +131,35 @@ if __name__ == "__main__":
         tier = a[a.index("--tier") + 1] if "--tier" in a else "quick"
         checks = a[a.index("--checks") + 1].split(",") if "--checks" in a else [a[1]]
         print(json.dumps(evaluate(a[1], a[2], tier, checks), indent=1))
+    elif a[0] == "regress":
+        # every stored change must still be caught by the check(s) recorded in its meta.json
+        tier = a[a.index("--tier") + 1] if "--tier" in a else "quick"
+        only = a[1].split(",") if len(a) > 1 and not a[1].startswith("--") else None
+        bad = 0
+        for d in sorted(glob.glob(os.path.join(VERIF, "seeded", "*"))):
+            name = os.path.basename(d)
+            if only and not any(name.startswith(o) for o in only):
+                continue
+            meta = json.load(open(os.path.join(d, "meta.json")))
+            checks = sorted(c for c, v in (meta.get("detected_by") or {}).items() if v) or [name[:3]]
+            rc, out = sh("git -C /repo status --short")
+            if out.strip():
+                print("ERROR /repo not clean"); sys.exit(2)
+            rc, out = sh("git -C /repo apply %s" % os.path.join(d, "patch.diff"))
+            if rc:
+                print("%s: patch no longer applies" % name); bad += 1; continue
+            try:
+                verdict = {}
+                for c in checks[:1]:
+                    rc, out = sh("bin/check %s %s 2>&1 | grep -E '^VIOLATION|TOOL-ERROR' | head -3" % (c, tier), cwd=VERIF, timeout=7200)
+                    verdict[c] = "VIOLATION" in out
+            finally:
+                sh("git -C /repo checkout -- .")
+            ok = all(verdict.values())
+            bad += 0 if ok else 1
+            print("%s: %s %s" % (name, "caught" if ok else "MISSED", verdict), flush=True)
+        print("regress: %d not caught" % bad)
+        sys.exit(1 if bad else 0)
     elif a[0] == "store":
         extra = json.loads(a[4]) if len(a) > 4 else {}
         store(a[1], a[2], a[3], extra)
